@@ -265,7 +265,17 @@ static inline void cm(W& w, int prior, const int si[4], size_t vlen)
     for (int i = 0; i < 4; ++i)
         s[i] = strOf(kStrLens[si[i]], (char) (i + 1));
     Bytes v = pat(vlen, 9);
-    p.setData(s[0], s[1], s[2], s[3], v);
+    // the builder takes string_views: hand it views into ONE larger text in which every string is directly followed by
+    // other characters (no NUL behind the view), as a slice of a config line or a fixed-width field would be
+    std::string text = "#";
+    size_t at[4];
+    for (int i = 0; i < 4; ++i)
+    {
+        at[i] = text.size();
+        text += s[i] + "/&";
+    }
+    p.setData(std::string_view(text.data() + at[0], s[0].size()), std::string_view(text.data() + at[1], s[1].size()), std::string_view(text.data() + at[2], s[2].size()),
+              std::string_view(text.data() + at[3], s[3].size()), v);
     w.add(mc::C_TRANS, 2);
     std::string k = "CaptureModulePayload";
     std::string_view got[4] = {p.getDeviceDescription(), p.getSerialNumber(), p.getHardwareVersion(), p.getSoftwareVersion()};
